@@ -878,6 +878,10 @@ def order_violation(text):
         if names != mand + opt + ["container"]:
             return {"class": "layout.group_order", "site": g, "msg": "group %s is laid out as %r; expected mandatory vtables, optional vtables, container" % (g, names)}
         base = [f for f, _ in vt]
+        # the container's temporary storage follows the order of the vtables it belongs to
+        tmp = [f[len("ret_tmp_"):] for f, _ in structs[g + "Container"] if f.startswith("ret_tmp_")]
+        if tmp != [f[len("vtbl_"):] for f in base]:
+            return {"class": "layout.container_order", "site": g + "Container", "msg": "container of group %s keeps its temporary storage in the order %r, its vtables are ordered %r (mandatory by name, then optional by name)" % (g, tmp, [f[len("vtbl_"):] for f in base])}
         for n, fs in structs.items():
             if n != g and n.startswith(g) and (n.startswith(g + "With") or n.startswith(g + "FinalWith")):
                 seq = [f for f, _ in fs if f.startswith("vtbl_")]
